@@ -22,3 +22,11 @@ def edit_step(rng, tier='quick', allow=None, version_hint=None):
         spec.pop('segments', None)
         st['spec'] = spec
     return st
+
+
+def swarm_subset(rng, base=None, keep=(6, 14)):
+    """Swarm testing: a run draws the subset of edit operations it may use (None = all)."""
+    ops = [o for o, _ in EDIT_WEIGHTS if base is None or o in base]
+    if rng.chance(0.4):
+        return base
+    return rng.sample(ops, rng.range(min(keep[0], len(ops)), min(keep[1], len(ops))))
